@@ -5,7 +5,8 @@ from harness import xmlmodel
 from harness.common import tree
 from pyxform.utils import escape_text_for_xml, node
 
-N_SHAPES = 11
+N_SHAPES = 11  # shapes 0-10 are shared with C01.c; 11+ are C15-only
+N_SHAPES_C15 = 12
 
 
 def build(shape: int, t1: str, t2: str):
@@ -37,6 +38,9 @@ def build(shape: int, t1: str, t2: str):
         return node("hint", s, toParseString=True)
     if shape == 10:  # two adjacent outputs followed by text, then an output
         s = '<output value="/d/q"/><output value="/d/r"/>' + escape_text_for_xml(t1) + '<output value="/d/s"/>' + escape_text_for_xml(t2)
+        return node("label", s, toParseString=True)
+    if shape == 11:  # references separated only by t1 (no other text in the element)
+        s = '<output value="/d/q"/>' + escape_text_for_xml(t1) + '<output value="/d/r"/>'
         return node("label", s, toParseString=True)
     raise ValueError(shape)
 
